@@ -115,6 +115,8 @@ def sd_nzs(period, site_class, z_factor, r_factor, n_factor):
     :param site_class: Either 'C', 'D' or 'E'
     output: sd_nzs: float or array
     """
+    if hasattr(period, '__len__'):  # array of periods
+        return np.array([sd_nzs(tt, site_class, z_factor, r_factor, n_factor) for tt in period])
     if period < 0:
         raise ValueError('Structural period is negative')
     else:
